@@ -172,7 +172,7 @@ package protocol
 //@ // b[i] == appin(position+i), is written in DESIGN.md; its obligations are not yet
 //@ // stable enough to be claimed.)
 //@ func (s *Session) Read(b []byte) (n int, err error)
-//@   property C01 C19 C15
+//@   property C01 C19 C15 C03
 //@   mode int
 //@   requires s != nil && s.recvQueue != nil
 //@   requires !isProtoBuf(baseof(b)) && (len(s.unreadBuf) > 0 ==> isProtoBuf(baseof(s.unreadBuf)))
@@ -184,6 +184,9 @@ package protocol
 //@   ensures len(s.unreadBuf) > 0 ==> isProtoBuf(baseof(s.unreadBuf))
 //@   ensures err == nil && len(b) > 0 ==> n > 0
 //@   ensures err != nil ==> n == 0
+//@   // no error (end of stream, timeout, input error) is reported while bytes that were already
+//@   // taken out of the receive queue are still waiting for the application (C01, C03)
+//@   ensures [C01 C03] err != nil ==> old(len(s.unreadBuf)) == 0
 //@   ensures [C19] err == nil && !s.isClient && s.uploadBytes != nil ==> ghost(added) == old(ghost(added)) + mathint(n)
 //@   ensures [C19] err != nil || s.isClient || s.uploadBytes == nil ==> ghost(added) == old(ghost(added))
 //@   ensures [C15] s.readDeadline.v == old(s.readDeadline.v)
